@@ -80,4 +80,15 @@ CLAIMS = {
                 "np.packbits / unpackbits / bitwise_count are trusted to be what the model's pack/unpack/popcount transcribe (tied by correspondence).",
         "technique": "Lean 4 theorem over executable model + differential correspondence",
     },
+    "C20": {
+        "text": "C20_reader (for every sample sequence and every interleaving of writer file effects and reader steps, a completed read "
+                "returns no value or a complete value the writer wrote; never an error, never a partial number), C20_reader_monotone, "
+                "C20_monotone (the published peak never decreases, never disappears), C20_writes_increasing; C20_unfixed_witness(_wrong): "
+                "the truncate-in-place protocol of the pinned code does fail. Invariant proof over an inode-level file-system model. "
+                "Correspondence: real monitor loop and real reader as gated threads on real files, all merges for 1-3 samples x up to two readers.",
+        "note": TB + "PARTIAL: atomicity of rename(2), of a single small write(2) and of open(O_TRUNC) are assumptions about the kernel; the model "
+                "conservatively also allows a partially written temporary file. 'Monitoring on/off does not change clustering output' is "
+                "exercised by the CLI suite (C15), not proved.",
+        "technique": "Lean 4 invariant proof over protocol model + gated-thread schedule enumeration",
+    },
 }
